@@ -158,6 +158,8 @@ fn vec_leaf() -> BoxedStrategy<Leaf> {
     // malformed: ends in ']' but contains a bad element -> dropped
     let bad = prop::sample::select(vec![
         "INT[1,x]", "INT[1.5]", "INT[1,,2]", "INT[2147483648]", "INT[,1]", "INT[1,]", "INT[a]", "BOOL[2]", "BOOL[1,TRUE]", "BOOL[yes]", "BOOL[1,,0]",
+        // BOOL elements are exactly 1 / 0 / true / false: other spellings of a number are malformed
+        "BOOL[+1]", "BOOL[01]", "BOOL[00,1]", "BOOL[1,+0]", "BOOL[1.0]", "BOOL[True]", "BOOL[T,F]", "BOOL[-0]", "BOOL[1,0,10]", "INT[1e3]", "INT[0x10]", "INT[1_000]", "INT[--1]", "FLOAT[1,2,]", "FLOAT[1e]",
         "FLOAT[1,x]", "FLOAT[1.5,]", "FLOAT[abc]", "FLOAT[1;2]", "INT[1]]", "INT[[1]", "BOOL[é]", "INT[∑]", "FLOAT[1,é]",
         // not closed by ']': malformed as well (dropped, never turned into another kind of item)
         "FLOAT[1.5,2.5", "INT[1,2", "BOOL[1", "INT[", "FLOAT[", "BOOL[", "INT[1,2x", "FLOAT[3.0,x", "BOOL[1,0)", "INT[7é",
